@@ -80,7 +80,7 @@ let () =
                 else if not (c17_cmp_laws (c17_flt p e a b) (c17_fgt p e a b) (g 0) (g 1) (g 2) (g 3) (g 4) (g 5))
                 then "BAD " ^ which ^ " results violate the comparison algebra (ne=!eq, gt/lt/ge/le derived, exactly one of lt/eq/gt)"
                 else begin
-                  let v = c17_eq_verdict p e s (c17_toQ p e eps) (c17_toQ p e a) (c17_toQ p e b) in
+                  let v = c17_eq_verdict p e s (c17_to_dy p e eps) (c17_to_dy p e a) (c17_to_dy p e b) in
                   match v with
                   | Some x when x <> g 0 -> "BAD " ^ which ^ " eq=" ^ b01 (g 0) ^ " contradicts the documented definition evaluated exactly (" ^ verdict_str v ^ ")"
                   | _ -> "ok" end in
@@ -104,7 +104,7 @@ let () =
           | Some l ->
             let allfin = List.for_all (is_fin p e) (eps :: a @ b) in
             if not allfin then "ok" else
-            let q = c17_toQ p e in
+            let q = c17_to_dy p e in
             let comp = if n <> m then [Some false] else List.map2 (fun x y -> c17_eq_verdict p e s (q eps) (q x) (q y)) a b in
             let expected = if List.mem (Some false) comp then Some false
                            else if List.for_all (fun v -> v = Some true) comp then Some true else None in
@@ -128,9 +128,17 @@ let () =
             else (match (try Some (z_of_dec l) with _ -> None) with
               | None -> "BAD unparsable impl line"
               | Some z ->
+                let dv = c17_to_dy p e v in
+                let ideal = if isround then c17_spec_round_ideal r dv else c17_spec_trunc_ideal r dv in
+                if not (c17_inrange ty ideal) then "ok(unrepresentable)" else
                 let okf = if isround then c17_spec_round_ok else c17_spec_trunc_ok in
-                if okf p e r s (c17_toQ p e eps) (c17_toQ p e v) z then "ok"
-                else "BAD result " ^ l ^ " is not the documented " ^ t.(0) ^ " of the argument")) in
+                let fl = c17_dy_floor dv in
+                let other = if ideal = fl then Z.add fl (z_of_int 1) else fl in
+                if okf p e r s (c17_to_dy p e eps) dv z then "ok"
+                (* trunc returned the real truncated value although the neighbouring integer is "near": fine when that
+                   neighbour is not a value of the integer type *)
+                else if (not isround) && z = ideal && not (c17_inrange ty other) then "ok(unrepresentable)"
+                else "BAD result " ^ l ^ " is not the documented " ^ t.(0) ^ " of the argument (exact: " ^ dec_of_z ideal ^ ")")) in
         ires_str res, orc
       | "ipow" | "fact" | "binom" | "isign" ->
         let ty = ity_of t.(1) in
@@ -159,19 +167,23 @@ let () =
           | Some l ->
             if not (is_fin p e m) then "ok" else
             let ri = c17_of_bits p e w (z_of_hex l) in
-            let xm = c17_toQ p e m in
+            let xm = c17_to_dy p e m in
             let n = abs (int_of_z pw) in
-            let rec qpow acc k = if k = 0 then acc else qpow (qmult acc xm) (k - 1) in
-            let ex = qpow (inject_Z (z_of_int 1)) n in
-            if qeq_bool ex (inject_Z Z0) then "ok(zero)" else
-            let ex = if Z.ltb pw Z0 then qinv ex else ex in
-            let big = c17_pow2Q (Z.sub e (z_of_int 3)) and small = c17_pow2Q (Z.sub (z_of_int 6) e) in
-            if qle_bool big (qabs ex) || qle_bool (qabs ex) small then "ok(range)"
+            if n > 40 then "ok(no-verdict)" else
+            let one = c17_dy_of_Z (z_of_int 1) in
+            let rec dpow acc k = if k = 0 then acc else dpow (c17_dy_mul acc xm) (k - 1) in
+            let ex = dpow one n in
+            if c17_dy_eqb ex (c17_dy_of_Z Z0) then "ok(zero)" else
+            let big = c17_dy_pow2 (Z.sub e (z_of_int 3)) and small = c17_dy_pow2 (Z.sub (z_of_int 6) e) in
+            if c17_dy_leb big (c17_dy_abs ex) || c17_dy_leb (c17_dy_abs ex) small then "ok(range)"
             else if not (is_fin p e ri) then "BAD power result not finite although the exact value is in range"
             else
-              let err = qabs (qminus (c17_toQ p e ri) ex) in
-              let tol = qmult (qabs ex) (qmult (inject_Z (z_of_int (n + 2))) (c17_pow2Q (Z.sub (z_of_int 1) p))) in
-              if qle_bool err tol then "ok" else "BAD power result differs from the exact power by more than (|p|+2) ulp/2") in
+              let rd = c17_to_dy p e ri in
+              let relb = c17_dy_mul (c17_dy_of_Z (z_of_int (n + 2))) (c17_dy_pow2 (Z.sub (z_of_int 1) p)) in
+              (* p >= 0: |r - ex| <= relb*|ex| ;  p < 0: |r*ex - 1| <= relb *)
+              let okv = if Z.ltb pw Z0 then c17_dy_leb (c17_dy_abs (c17_dy_sub (c17_dy_mul rd ex) one)) relb
+                        else c17_dy_leb (c17_dy_abs (c17_dy_sub rd ex)) (c17_dy_mul relb (c17_dy_abs ex)) in
+              if okv then "ok" else "BAD power result differs from the exact power by more than (|p|+2) ulp/2") in
         hex_of_z hw (c17_to_bits p e w r), orc
       | "fsign" ->
         let (p, e, w, _) = fmt_of t.(1) in
